@@ -169,17 +169,18 @@ func nontrivial(x *vs.Exec) bool {
 }
 
 type explorer struct {
-	sc        *Scenario
-	prop      string
-	res       *Result
-	outcomes  map[string]bool
-	nontriv   map[string]bool
-	deadline  time.Time
-	maxViol   int
-	violKeys  map[string]bool
-	stopAfter bool
-	fine      bool // fine-grained transitions without reduction (used to validate the reduction)
-	keys      map[string]bool
+	sc         *Scenario
+	prop       string
+	res        *Result
+	outcomes   map[string]bool
+	nontriv    map[string]bool
+	deadline   time.Time
+	maxViol    int
+	violKeys   map[string]bool
+	stopAfter  bool
+	fine       bool // fine-grained transitions without reduction (used to validate the reduction)
+	keys       map[string]bool
+	livelocked bool
 }
 
 func (e *explorer) runOnce(prefix []int) (*vs.Exec, *Instance) {
@@ -215,6 +216,11 @@ func (e *explorer) explore(prefix []int) {
 		return
 	}
 	if !e.deadline.IsZero() && time.Now().After(e.deadline) {
+		e.res.Capped = true
+		return
+	}
+	if e.livelocked {
+		// every further schedule of a scenario that can loop for ever costs a full horizon: one report is enough
 		e.res.Capped = true
 		return
 	}
@@ -279,11 +285,15 @@ func (e *explorer) explore(prefix []int) {
 		}
 		e.violKeys[vk] = true
 		vv := Violation{Property: e.prop, Scenario: e.sc.Name, Params: e.sc.Params, Bounds: e.sc.Bounds,
-			Rule: v.Rule, Msg: v.Msg, Choices: x.Choices(), Log: logStrings(x), Outcome: x.Outcome, Detail: x.Detail, Stack: trimStack(x.Stack)}
+			Rule: v.Rule, Msg: v.Msg, Choices: trimZeros(x.Choices()), Log: logStrings(x), Outcome: x.Outcome, Detail: x.Detail, Stack: trimStack(x.Stack)}
 		for _, b := range x.Blocked {
 			vv.Blocked = append(vv.Blocked, fmt.Sprintf("T%d(%s) %s", b.ID, b.Name, b.Desc))
 		}
 		e.res.Violations = append(e.res.Violations, vv)
+	}
+	if x.Outcome == "livelock" {
+		e.livelocked = true
+		return
 	}
 	if e.res.Sample == nil || (e.res.Execs == 7) {
 		e.res.Sample = map[string]any{"choices": x.Choices(), "outcome": x.Outcome, "log": logStrings(x)}
@@ -441,4 +451,13 @@ func (r *SeqRun) Extra(k string, v any) {
 		r.res.Extra = map[string]any{}
 	}
 	r.res.Extra[k] = v
+}
+
+// trimZeros drops trailing default choices: a replay takes choice 0 wherever the list has ended.
+func trimZeros(c []int) []int {
+	n := len(c)
+	for n > 0 && c[n-1] == 0 {
+		n--
+	}
+	return append([]int(nil), c[:n]...)
 }
